@@ -48,19 +48,32 @@ func checkCNF(c CNFCase, o *vf.Obs) error {
 		if err != nil {
 			return fmt.Errorf("explain.ParseCNF returns an error on a well-formed DIMACS text: %v\n--- text ---\n%s", err, txt)
 		}
-		if pb.NbVars != c.N || pb.NbClauses != len(c.Clauses) {
-			return fmt.Errorf("explain.ParseCNF: NbVars=%d NbClauses=%d, the text declares %d variables and %d clauses\n--- text ---\n%s", pb.NbVars, pb.NbClauses, c.N, len(c.Clauses), txt)
+		// what the property asks: the same variables and the same models (a reader that normalised its clauses -
+		// literal order, repeated literals - would still honour it; whether the list is kept as written is recorded
+		// as a class, not required)
+		if pb.NbVars != c.N {
+			return fmt.Errorf("explain.ParseCNF: NbVars=%d, the text declares %d variables\n--- text ---\n%s", pb.NbVars, c.N, txt)
 		}
-		got := pb.Clauses
-		want := c.Clauses
-		if len(got) != len(want) {
-			return fmt.Errorf("explain.ParseCNF read %d clauses %v, the text holds %d: %v\n--- text ---\n%s", len(got), got, len(want), want, txt)
+		if pb.NbClauses != len(pb.Clauses) {
+			return fmt.Errorf("explain.ParseCNF: NbClauses=%d but %d clauses are held\n--- text ---\n%s", pb.NbClauses, len(pb.Clauses), txt)
 		}
-		for i := range want {
-			if len(got[i]) != len(want[i]) || (len(want[i]) > 0 && !reflect.DeepEqual(got[i], want[i])) {
-				return fmt.Errorf("explain.ParseCNF: clause #%d read as %v, the text has %v\n--- text ---\n%s", i, got[i], want[i], txt)
+		for _, cl := range pb.Clauses {
+			for _, l := range cl {
+				if l == 0 || l > c.N || -l > c.N {
+					return fmt.Errorf("explain.ParseCNF: literal %d in the parsed clauses, the text declares %d variables\n--- text ---\n%s", l, c.N, txt)
+				}
 			}
 		}
+		want := oracle.Models(c.N, oracle.CNFPred(c.Clauses))
+		got := oracle.Models(c.N, oracle.CNFPred(pb.Clauses))
+		if !reflect.DeepEqual(got, want) {
+			return fmt.Errorf("explain.ParseCNF: the parsed clauses %v have %d models over %d variables, the text (%v) has %d\n--- text ---\n%s", pb.Clauses, len(got), c.N, c.Clauses, len(want), txt)
+		}
+		same := len(pb.Clauses) == len(c.Clauses)
+		for i := 0; same && i < len(c.Clauses); i++ {
+			same = len(pb.Clauses[i]) == len(c.Clauses[i]) && (len(c.Clauses[i]) == 0 || reflect.DeepEqual(pb.Clauses[i], c.Clauses[i]))
+		}
+		o.ClassIf(same, "clause-list-kept-as-written")
 		return nil
 	}
 	pb, err := solver.ParseCNF(texts.ReaderFor(txt))
@@ -668,7 +681,7 @@ func init() {
 	subDimacsSolver = vf.Sub[CNFCase]{Name: "dimacs-solver", Quick: 15000, Thorough: 100000, Gen: genCNF("solver"), Check: checkCNF, Floor: 0.3,
 		Rule: "DIMACS text for solver.ParseCNF written from a CNF (n<=8, empty clauses, duplicate literals, unused declared variables) with layout knobs: comment preamble with or without blank after 'c', header spacing, arbitrary blanks/tabs/newlines between tokens (clauses spanning lines, several clauses per line), comment lines between clauses, CRLF, optional final newline; oracle: the parsed problem, evaluated without solving from its exported data, has exactly the models of the CNF over the declared variables; non-trivial = >=2 clauses and >=1 knob away from the conventional layout"}
 	subDimacsExplain = vf.Sub[CNFCase]{Name: "dimacs-explain", Quick: 15000, Thorough: 100000, Gen: genCNF("explain"), Check: checkCNF, Floor: 0.3,
-		Rule: "the same DIMACS texts for explain.ParseCNF; oracle: NbVars/NbClauses match the header and the parsed clause list equals the CNF's, clause by clause; non-trivial as above"}
+		Rule: "the same DIMACS texts for explain.ParseCNF; oracle: NbVars matches the header, NbClauses matches the clause list held, and that list has exactly the models of the CNF over the declared variables (whether it is kept literally as written is recorded as a class); non-trivial as above"}
 	subOPB = vf.Sub[OPBCase]{Name: "opb", Quick: 10000, Thorough: 120000, Gen: genOPB, Check: checkOPB, Floor: 0.3,
 		Rule: "OPB text written from a PB problem (coefficients of either sign, >= / = / <= (as negated >=), trivially true/false constraints, optional min: line with signed coefficients) with layout knobs: '*' comments, explicit '+' or not, several blanks, CRLF, blank lines, optional final newline, and the zero-space forms the grammar allows ('>=0', '0;', 'min:+1'); oracle: parsed problem evaluated without solving has the text's models; Optimal = brute-force optimum; for up to 3 drawn assignments the text extended with unit constraints pinning the assignment yields exactly that assignment's cost, or Unsat when it violates a constraint; non-trivial as above"}
 	subWCNF = vf.Sub[WCNFCase]{Name: "wcnf", Quick: 8000, Thorough: 100000, Gen: genWCNF, Check: checkWCNF, Floor: 0.3,
